@@ -311,6 +311,9 @@ def gen_mixed_batch(rng, doc, texts, n_edits, kinds=None, comment_p=0.3, conflic
     if conflicts and base:
         for _ in range(rng.randint(1, 3)):
             e = rng.choice(base)
+            bridging = [x for x in base if x.get("over_del") or not x.get("in_raw")]
+            if bridging and rng.random() < 0.6:
+                e = rng.choice(bridging)     # conflicts among edits that are found only in the accepted view
             pv = pvs[e["pi"]]
             c = rng.random()
             if c < 0.3:   # duplicate target, different new text
